@@ -222,7 +222,6 @@ func respell(dir string, how int64) string {
 // globRel lists the case-relative names matched by base/pattern (the glob oracle of the model).
 func (s *sess) globRel(base, pattern string) []string {
 	m, _ := filepath.Glob(filepath.Join(s.dir, base, pattern))
-	sort.Strings(m)
 	var out []string
 	for _, p := range m {
 		r, err := filepath.Rel(s.dir, p)
@@ -326,13 +325,13 @@ func init() {
 	// items: "item|f1,f2;item2|f3" — what the item and file patterns match (glob oracle)
 	itemsOracle := func(s *sess, base, itemPat, srcPat string) string {
 		var parts []string
+		// filepath.Glob's own order (sorted per directory, component by component) is the order in
+		// which the commands process items and files: not re-sorted here
 		dirs, _ := filepath.Glob(filepath.Join(s.dir, base, itemPat))
-		sort.Strings(dirs)
 		for _, d := range dirs {
 			rel, _ := filepath.Rel(filepath.Join(s.dir, base), d)
 			item := strings.ReplaceAll(rel, "/", ".")
 			fs, _ := filepath.Glob(filepath.Join(d, srcPat))
-			sort.Strings(fs)
 			var names []string
 			for _, f := range fs {
 				r, _ := filepath.Rel(s.dir, f)
